@@ -194,11 +194,13 @@ def seed_type0():
            b"/CMapName /90ms-RKSJ-V def /CMapType 1 def /WMode 1 def\n"
            b"1 begincodespacerange <00> <FF> endcodespacerange\n"
            b"1 begincidrange <20> <7E> 1 endcidrange\nendcmap end end\n")
+    ttf = truetype_with_cmap({0x50: 3, 0x51: 4})       # glyphs 3 and 4 are P and Q
     o = basic({
         4: {"Type": N("Font"), "Subtype": N("Type0"), "BaseFont": N("VerifCID"), "Encoding": N("Identity-H"),
             "DescendantFonts": [Ref(6)], "ToUnicode": Ref(8)},
         5: Stream({}, b"BT /F1 12 Tf 72 700 Td <004100420001> Tj ET\n"
-                      b"BT /F2 12 Tf 72 650 Td (AB) Tj ET\nBT /F3 12 Tf 300 600 Td (CD) Tj ET\n"),
+                      b"BT /F2 12 Tf 72 650 Td (AB) Tj ET\nBT /F3 12 Tf 300 600 Td (CD) Tj ET\n"
+                      b"BT /F4 12 Tf 72 550 Td <00030004> Tj ET\n"),
         6: {"Type": N("Font"), "Subtype": N("CIDFontType2"), "BaseFont": N("VerifCID"),
             "CIDSystemInfo": {"Registry": b"Adobe", "Ordering": b"Identity", "Supplement": 0},
             "FontDescriptor": Ref(7), "DW": 1000, "W": [1, [500, 600], 65, 90, 700, 100, [Ref(16)]],
@@ -219,9 +221,18 @@ def seed_type0():
              "CIDSystemInfo": Ref(11), "FontDescriptor": Ref(7), "DW": 1000, "DW2": [880, -1000],
              "W2": [1, [-1000, 500, 880], 40, 50, -900, 500, 880]},
         16: 450,
-    }, res={"Font": {"F1": Ref(4), "F2": Ref(9), "F3": Ref(12)}})
-    return SeedDoc("type0", [Rev(o)], expect=["ABx", "AB"],
-                   features=["Type0 Identity-H", "CIDFontType2 W", "predefined CMap", "embedded CMap", "vertical W2/DW2"])
+        17: {"Type": N("Font"), "Subtype": N("Type0"), "BaseFont": N("VerifTT"), "Encoding": N("Identity-H"),
+             "DescendantFonts": [Ref(18)]},
+        18: {"Type": N("Font"), "Subtype": N("CIDFontType2"), "BaseFont": N("VerifTT"),
+             "CIDSystemInfo": {"Registry": b"Adobe", "Ordering": b"Identity", "Supplement": 0},
+             "FontDescriptor": Ref(19), "DW": 600},
+        19: {"Type": N("FontDescriptor"), "FontName": N("VerifTT"), "Flags": 4, "FontBBox": [0, -200, 1000, 800],
+             "ItalicAngle": 0, "Ascent": 800, "Descent": -200, "StemV": 80, "FontFile2": Ref(20)},
+        20: Stream({"Length1": len(ttf)}, ttf),
+    }, res={"Font": {"F1": Ref(4), "F2": Ref(9), "F3": Ref(12), "F4": Ref(17)}})
+    return SeedDoc("type0", [Rev(o)], expect=["ABx", "AB", "PQ"],
+                   features=["Type0 Identity-H", "CIDFontType2 W", "predefined CMap", "embedded CMap", "vertical W2/DW2",
+                             "embedded TrueType program (FontFile2) with cmap"])
 
 
 def seed_pagelabels():
